@@ -1,106 +1,17 @@
-// c01: reads return the latest write — DB programs against the map oracle.
+// c01: reads return the latest write — DB programs against the map oracle; (K) point reads on dumped
+// states against the L1 model's read path.
 package main
 
-import (
-	"fmt"
-	"strings"
-	"sync"
-	"time"
-
-	"verifharness/lib/dbh"
-	"verifharness/lib/vlib"
-)
+import "verifharness/lib/dbh"
 
 func main() {
-	a := vlib.ParseArgs()
-	res := vlib.NewResult("C01", a.Out, "random DB programs (Put/Delete/batch incl. oversized/Get/Has/scan/snapshots/CompactRange/reopen/transactions) x option lattice x 4 comparers; after every 8th write and at checkpoints Get/Has of every pool key + 4 absent keys and a full scan are compared with a Go map; non-trivial = the run installed >=1 table compaction and populated >=2 levels")
-	defer res.Write()
-	if a.Replay != "" {
-		p, err := dbh.LoadProgram(a.Replay)
-		if err != nil {
-			fmt.Println("cannot load replay:", err)
-			return
-		}
-		rr, _ := dbh.Run(p, dbh.Hooks{CheckEvery: 1}, false, false)
-		res.Eval("replay", true)
-		res.Eval("replay2", true)
-		if d := dbh.Describe(rr); d != "" {
-			fmt.Println("replay fails:", d)
-			res.Violate(d, p)
-		} else {
-			fmt.Println("replay passes")
-		}
-		return
-	}
-	nprog, nops := 48, 300
-	if a.Thorough() {
-		nprog, nops = 1500, 1200
-	}
-	root := vlib.NewRNG(a.Seed)
-	type job struct {
-		i int
-		r *vlib.RNG
-	}
-	jobs := make(chan job)
-	var kmu sync.Mutex
-	var kcases []string
-	kcap := 150
-	if a.Thorough() {
-		kcap = 1500
-	}
-	var wg sync.WaitGroup
-	for w := 0; w < 16; w++ {
-		wg.Add(1)
-		go func() {
-			defer wg.Done()
-			for j := range jobs {
-				r := j.r
-				cfg := dbh.RandomCfg(r)
-				pool := dbh.GenPool(r, r.Range(8, 60), r.Chance(1, 8))
-				p := dbh.GenProgram(r, cfg, pool, r.Range(nops/3, nops), dbh.DefaultWeights())
-				p.Seed = a.Seed
-				kr := r.Fork()
-				hooks := dbh.Hooks{CheckEvery: 8, AfterOp: func(rn *dbh.Runner, i int, op *dbh.Op) {
-					if i%37 == 5 || op.Kind == dbh.OpWaitIdle {
-						rn.DumpKGet(kr, 300)
-					}
-				}}
-				rr, rn := dbh.RunWith(p, hooks, false, false, func(rn *dbh.Runner) { rn.CollectK = j.i%3 == 0; rn.KCap = 3 })
-				kmu.Lock()
-				if len(kcases) < kcap {
-					for _, kc := range rn.KCases {
-						if strings.HasPrefix(kc, "KGet") && len(kc) < 40000 {
-							kcases = append(kcases, kc)
-						}
-					}
-				}
-				kmu.Unlock()
-				for k, v := range rr.Stats {
-					res.Count(k, v)
-				}
-				nontriv := rr.Stats["table_compactions"] >= 1 && rr.Stats["max_levels"] >= 2
-				res.Eval(fmt.Sprintf("%d", j.i), nontriv)
-				if j.i < 2 {
-					res.Sample(map[string]interface{}{"cfg": cfg.String(), "ops": len(p.Ops), "first_ops": p.Ops[:4], "stats": rr.Stats})
-				}
-				if d := dbh.Describe(rr); d != "" {
-					q, d2 := dbh.ShrinkAndDescribe(p, dbh.Hooks{CheckEvery: 1}, false, 20*time.Second)
-					if d2 != "" {
-						res.Violate(d2, q)
-					} else {
-						res.Violate(d+" ["+cfg.String()+"] (not reproduced while shrinking)", p)
-					}
-				}
-			}
-		}()
-	}
-	for i := 0; i < nprog; i++ {
-		jobs <- job{i, root.Fork()}
-	}
-	close(jobs)
-	wg.Wait()
-	if len(kcases) > kcap {
-		kcases = kcases[:kcap]
-	}
-	res.WriteCases("From GL Require Import Corr.C01Run.", "lsmcase", "mismatches", kcases, 16)
+	dbh.Main(dbh.MainCfg{
+		Property:   "C01",
+		Rule:       "random DB programs (Put/Delete/batch incl. oversized/Get/Has/scan/snapshots/CompactRange/reopen/transactions) x option lattice x 4 comparers; after every 8th write and at checkpoints Get/Has of every pool key + 4 absent keys and a full scan are compared with a Go map; non-trivial = the run installed >=1 table compaction and populated >=2 levels",
+		Header:     "From GL Require Import Corr.C01Run.",
+		QuickProgs: 64, QuickOps: 300, ThorProgs: 2000, ThorOps: 1200,
+		Weights: dbh.DefaultWeights(), CheckEvery: 8,
+		KPrefixes: []string{"KGet"}, KCapQuick: 160, KCapThor: 1600, KPerRun: 3,
+		NonTrivial: func(s map[string]int) bool { return s["table_compactions"] >= 1 && s["max_levels"] >= 2 },
+	})
 }
